@@ -414,7 +414,14 @@ func c02RunHistory(c *Ctx, srv *Server, ws *Workspace, idx int, h c02History) bo
 			srv.DidChangeFull(uris[d], version, st.Text)
 			c.Count("op_full", 1)
 		case "save":
-			ws.Write(fmt.Sprintf("h%d_d%d.lua", idx, d), st.Text)
+			// what the editor writes to disk is the text in the file's encoding: one save in four writes a UTF-8 byte order
+			// mark first (the notification carries the text itself, as always)
+			disk := st.Text
+			if (idx+si)%4 == 0 {
+				disk = "\xef\xbb\xbf" + disk
+				c.Count("op_save_with_byte_order_mark_on_disk", 1)
+			}
+			ws.Write(fmt.Sprintf("h%d_d%d.lua", idx, d), disk)
 			srv.DidSave(uris[d], st.Text)
 			c.Count("op_save", 1)
 		case "query":
